@@ -448,6 +448,24 @@ pub fn near_limit_doc(rng: &mut Rng) -> String {
     }
 }
 
+/// Real (namespaced) SVG written in non-canonical form: it must come out the same however
+/// the bytes are delivered and whichever front-end is used.
+pub fn real_svg_doc(rng: &mut Rng) -> String {
+    let body = *rng.pick(&[
+        "<rect  width='10'   height = \"5\"\n x=\"1\"/>",
+        "<g\tid='a' ><text x=\"1\"  y='2' >t &amp; u</text></g  >",
+        "<path d='M 0 0 L 1 1' style=\"fill: 'x'\"/><!--c--><?pi x?>",
+        "<rect width=\"1\" height=\"1\"></rect><![CDATA[ x ]]>",
+    ]);
+    let root = *rng.pick(&[
+        "<svg xmlns=\"http://www.w3.org/2000/svg\" width='10'  height=\"5\" >",
+        "<svg   height='5' xmlns='http://www.w3.org/2000/svg'\n   viewBox=\"0 0 1 1\">",
+        "<?xml version='1.0'?>\n<!-- lead -->\n<svg\nxmlns=\"http://www.w3.org/2000/svg\">",
+        "<svg xmlns='http://www.w3.org/2000/svg' data-long='0123456789012345678901234567890123456789012345678901234567890123456789' b=\"2\" a='1'>",
+    ]);
+    format!("{root}{body}</svg>\n")
+}
+
 /// A fragment whose output is one long line without a trailing newline.
 pub fn long_line_fragment(rng: &mut Rng) -> String {
     let n = 1100 + rng.usize(3000);
